@@ -238,7 +238,8 @@ package parsley
 //@ func (c *Context) SetError(e Error)
 //@   requires c != nil
 //@   ensures  [keep] e == nil ==> same(c.err, old(c.err))
-//@   ensures  [max] e != nil ==> same(c.err, ite(old(c.err) == nil || e.Pos() >= old(c.err).Pos(), e, old(c.err)))
+//@ -- (which of two errors at the same position is kept is not part of any property: only the position is)
+//@   ensures  [max] e != nil ==> (old(c.err) == nil || e.Pos() > old(c.err).Pos() ==> same(c.err, e)) && (old(c.err) != nil && e.Pos() < old(c.err).Pos() ==> same(c.err, old(c.err))) && (same(c.err, e) || same(c.err, old(c.err)))
 //@   assigns  c.err
 
 //@ func NewResultCache() (rc ResultCache)
